@@ -14,7 +14,9 @@ Next ==
          run == Run(Ev.lines, Ev.decl, Ev.cols)
      IN /\ run.out = ref.recs /\ run.end = ref.end /\ run.bad = ""
         /\ Ev.end = ref.end
-        /\ Ev.obs = ref.recs
+        \* (an instance of the leading, non-target declaration is observable only from a later record's parent)
+        /\ \/ Ev.obs = ref.recs
+           \/ PreMatched(Ev.lines, Ev.decl) /\ Len(ref.recs) = 1 /\ Ev.obs = <<>>
   /\ l' = l + 1
 Spec == Init /\ [][Next]_l
 TraceAccepted == TLCGet("stats").diameter - 1 = Len(Trace)
